@@ -15,7 +15,7 @@ from ..progrun import Scenario, Name
 from . import c12
 
 RAW_KINDS = [5, -1, 0.5, True, "text", "12", "", Name("Rd"), Name("NoSuch"), Name("word"), [], [1, 2], ["a"], [[1], [2]], [Name("Rd")], [Name("Tok")],
-             {"k": "v"}, "é☃", "a\\b", 'q"uote', "snow ☃\there \\ \"x\"", {"k☃": "v\n☃"}]
+             {"k": "v"}, "é☃", "a\\b", 'q"uote', "snow ☃\there \\ \"x\"", {"k☃": "v\n☃"}, "in\x00put.csv", "x" * 5000]
 
 
 def boundary_ok(outcome):
@@ -32,7 +32,7 @@ def kind_matrix(ctx, classes, env, tmp):
         cmds = c12.producers(env) + [call]
         names = [n for n in cls.inputs if n != "Fail"]
         for name in names:
-            kinds = RAW_KINDS if ctx.thorough else rng.sample(RAW_KINDS, 6) + RAW_KINDS[-2:]
+            kinds = RAW_KINDS if ctx.thorough else rng.sample(RAW_KINDS[:-4], 5) + RAW_KINDS[-4:]
             for v in kinds:
                 args = [(n, x) for n, x in call[2] if n != name] + [(name, v)]
                 scs.append((Scenario(cmds[:-1] + [(call[0], call[1], args)], wd=tmp, libs=c12.LIBS), "kind:%s.%s" % (cls.name, name)))
@@ -139,6 +139,31 @@ def cli(ctx, tmp, count):
                 ctx.fail("CLI marked %r, the offending line %d is %r" % (marked[:1], line, src.split("\n")[line - 1]), desc)
 
 
+def deep_models(ctx):
+    """dependency chains deeper than the interpreter's recursion limit, written inputs-first, dependents-first and shuffled, as direct and as
+    list references: whatever the outcome (the pinned code exhausts the stack while executing and wraps that), no RecursionError or other
+    undeclared exception escapes - neither from validation nor from the cycle check nor from execution"""
+    rng = ctx.rng
+    limit = 400
+    for order in ("inputs-first", "dependents-first", "shuffled"):
+        for style in ("One", "Many"):
+            for n in (150, 500):
+                cmds = [("c0", "N", [])] + [("c%d" % i, "N", [(style, Name("c%d" % (i - 1)) if style == "One" else [Name("c%d" % (i - 1))])]) for i in range(1, n)]
+                if order == "dependents-first":
+                    cmds.reverse()
+                elif order == "shuffled":
+                    rng.shuffle(cmds)
+                sc = Scenario(cmds, ops=[("run",), ("run",)], libs=c12.LIBS)
+                res = progrun.run_impl(sc, recursion_limit=limit)
+                outs = [res["load"]] + res["ops"]
+                ctx.case("deep %s %s %d" % (order, style, n) + sc.source[:60], sample={"kind": "deep", "order": order, "n": n, "outcome": outs})
+                ctx.count("deep_outcome:" + ":".join(outs[-1].split(":")[:2]))
+                for o in outs:
+                    if not boundary_ok(o):
+                        ctx.fail("a chain of %d commands (%s, %s references) under recursion limit %d: %s escaped from from_source()/run()" % (n, order, style, limit, o),
+                                 {"n": n, "order": order, "reference_style": style, "recursion_limit": limit, "source_head": sc.source[:300]})
+
+
 def run(ctx):
     ctx.check_proofs(["MPilot.Props.C13"])
     model = common.Model()
@@ -184,6 +209,7 @@ def run(ctx):
         ctx.count("corrupt_outcome:" + out.split(":")[0])
         if not boundary_ok(out):
             ctx.fail("corrupted command file: %s escaped" % out, {"source": src})
+    deep_models(ctx)
     csv_faults(ctx, tmp)
     cli(ctx, tmp, 10 if ctx.thorough else 7)
     return ctx.finish(
